@@ -57,6 +57,14 @@ CLAIMED['C13'] = dict(
     text='Machine-checked proof (Lean 4) on the solver model: a prompt is issued only for an input that is declared, absent, and read by every line quoted as needing it (prompt_is_demand_exact); the final inputs are exactly the file plus answers to inputs the file lacked; a re-run (any schedule) on the written-back inputs acquires no new input and yields the identical verdict, values, lines, forms and diagnostics (rerun_silent_and_identical, via the least-closed-state argument across two different files); inputs an evaluation does not read cannot influence it. Write-back/read-back of the file itself is Ini/Cli round-trip lemmas. Checked on real runs: prompts vs recorded reads, real write-back + re-solve incl. resumed sessions, dropping never-read inputs.',
     note='Trusted: Lean kernel; solver and Ini models validated differentially; prompt absent or total for the re-run theorem.',
     technique='Lean 4 invariant + confluence proof across two input files + differential correspondence', ref='7/C13')
+CLAIMED['C14'] = dict(
+    text='Machine-checked proof (Lean 4) for the file layer: for every list of (form, line, text) triples with distinct keys and clean texts, the model of to_config + solution[habutax] + write parses back, the tax year reads back as the integer written, every triple is found under its (form, line) with its text and nothing else is found (solution_reads_back). Value layer: booleans / integers / text / enumerations read back exactly (proved); money reads back exactly given float(\'%.nf\' % x) == x on rounded x, which is a stated hypothesis (PARTIAL) validated bit-exactly by the f64 and fields streams. Every real solution explored is written and read back through the same year line definitions as the PDF filler does.',
+    note='Trusted: Lean kernel; Ini/Cli/Fields/F64 models validated differentially (cli, fields, f64 streams). Partial: decimal print/parse round trip of binary64 is a hypothesis, not a theorem.',
+    technique='Lean 4 round-trip proof over the INI model + differential correspondence (partial for float text)', ref='7/C14')
+CLAIMED['C20'] = dict(
+    text='Machine-checked proof (Lean 4) over the INI/CLI model: for every initial file, every sequence of answers to absent inputs and EVERY prefix of it (interruption at any prompt index), the store the finally-block writes keeps everything the file provided, holds every answer given so far as typed, parses back (clean answers) to exactly file + answers-so-far, and after re-reading every answered input is provided (a re-run does not ask again). The model of the written file is compared byte for byte with the real `habutax solve --prompt-missing --writeback-input`, run in-process and interrupted at every prompt index by Ctrl-C, EOF, an exception, an unsupported form and failing lines, followed by parse-back and re-run checks.',
+    note='Trusted: Lean kernel; Ini/Cli models validated differentially. Not modelled: the process being killed during the write itself (file opened with truncation) - outside the listed interruption kinds.',
+    technique='Lean 4 induction over the answer script (all prefixes) + differential correspondence with injected interruptions', ref='7/C20')
 NOT_YET = {}
 ALL = [f'C{i:02d}' for i in range(1, 21)]
 
